@@ -32,7 +32,7 @@ EmitTRSel == \/ (Chk(A) + 7 * Chk(A') + Chk(B) + Len(A) + SeedVal) % EmitMod # 0
 MCValSeqs == [f \in {"sid", "tomo", "obj", "cls"} |-> { <<1>>, <<2>>, <<3>>, <<1, 2>>, <<2, 1>>, <<3, 1>> }]
 MCSplitFields == {"sid", "tomo", "obj", "cls"}
 MCStarts == {1, 4}
-MCOrders == { <<"a", "b">>, <<"b", "a">>, <<"a", "b", "a2">>, <<"b", "a2", "a">>, <<"b", "a", "b2">>,
+MCOrders == { <<"a">>, <<"b">>, <<"a", "b">>, <<"b", "a">>, <<"a", "b", "a2">>, <<"b", "a2", "a">>, <<"b", "a", "b2">>,
               <<"a", "b", "b2", "a2">>, <<"b2", "a", "a2", "b">> }
 
 \* ---- simulation scope: initial pairs handed over by the driver (random tables, 0..MaxRows rows)
